@@ -173,6 +173,7 @@ def run(res, a):
             return bool(evaluate([c2]))
         small = shrink(c, still) if len(c["ops"]) > 1 else c
         fl = evaluate([small]).get(0, bad[k])
+        fl = sorted(fl, key=lambda f: (0 if f[1] in (2, 3) else 1, f[0]))  # property failures before model mismatches
         step, code = fl[0]
         res.violation("C10 %s at edit %d of history %s" % (CODES.get(code, "API listing inconsistent with raw fields"),
                                                           step, json.dumps(small["ops"])),
